@@ -33,6 +33,7 @@ pub struct Cfg {
     /// 2: P1 G1.0 out, P2 G1.1 in, P3 floodsub in
     pub roles: u8,
     /// mesh parameters (outbound_min, n_low, n, n_high): 1 = (0,1,1,1), 2 = (0,1,1,2), 3 = (1,1,2,2)
+    /// (4 = (0,3,3,4) is used by C27 only)
     pub mesh: u8,
     /// 0: empty start; 1: locally subscribed to T1,T2 and all three peers connected
     pub start: u8,
@@ -60,6 +61,7 @@ pub fn mesh_params(m: u8) -> (usize, usize, usize, usize) {
     match m {
         1 => (0, 1, 1, 1),
         2 => (0, 1, 1, 2),
+        4 => (0, 3, 3, 4),
         _ => (1, 1, 2, 2),
     }
 }
@@ -300,6 +302,8 @@ impl MeshSys {
         let before = self.mesh_sets();
         let score_before: Vec<Option<f64>> = (0..3).map(|p| self.score(p)).collect();
         let deadline_before = self.deadline.clone();
+        let inow = Instant::now();
+        let code_backoff: Vec<Vec<bool>> = (0..3u8).map(|p| (0..2u8).map(|t| self.node.beh.verif_backoff_time(&thash(t), &pid(p)).is_some_and(|b| b > inow)).collect()).collect();
         self.node.notes.clear();
         self.node.app_events.clear();
         self.apply(a);
@@ -380,6 +384,10 @@ impl MeshSys {
                     "graft.refused-negative-score"
                 } else if before[t as usize].len() >= self.high {
                     "graft.refused-mesh-full"
+                } else if code_backoff[p as usize][t as usize] {
+                    // the behaviour's own backoff is stricter than the reference (e.g. PRUNE
+                    // received without a duration counts as prune_backoff)
+                    "graft.refused-backoff-beyond-reference"
                 } else {
                     "graft.refused-other"
                 };
